@@ -130,7 +130,7 @@ structure Acc where
   main : List (StreamId × SchedId)   -- live streams, p_xstream->p_main_sched
   req : SchedId → SchedReq           -- ABTI_sched.request of every scheduler object
   joined : StreamId → Bool           -- the stream was joined and not revived (it does not run)
-  stale : SchedId → Bool             -- p_replace_sched / p_replace_waiter left over from an earlier replacement
+  stale : SchedId → Bool             -- p_replace_sched / p_replace_waiter still set although the replacement was carried out
 
 def poolLive (pools : List (PoolId × Bool)) (p : PoolId) : Bool := pools.any (fun q => q.1 == p)
 def poolAuto (pools : List (PoolId × Bool)) (p : PoolId) : Bool := pools.any (fun q => q.1 == p && q.2)
@@ -211,17 +211,18 @@ def astep (s : Acc) : AEv → Option Acc
     match s.main? x, s.sched? k with
     | some o, some r =>
       -- a running stream replaces through the REPLACE request of its current scheduler o (callback: REPLACE on o;
-      -- thread_main_sched_func: request of k cleared, k main, o discarded; o keeps its p_replace_sched); a joined stream
-      -- is changed directly (xstream_update_main_sched, second branch: request of k cleared, o keeps what it has).
-      -- A running stream whose scheduler still carries a p_replace_sched from an earlier life takes the "overwrite"
-      -- branch on a dangling pointer: not a behaviour of this model.
+      -- thread_main_sched_func: p_replace_sched / p_replace_waiter of o reset, request of k cleared, k main, o discarded);
+      -- a joined stream is changed directly (xstream_update_main_sched, second branch: request of k cleared, o keeps
+      -- what it has).  A running stream whose scheduler still remembered an already executed replacement would take the
+      -- "overwrite" branch on a dangling pointer: not a behaviour of this model, and by `replace_done_forgets_pending`
+      -- no reachable state has such a scheduler.
       let waiting := !s.joined x
       if r.used = .notUsed && !(waiting && s.stale o) then
         let reqO : SchedReq := if waiting then { s.req o with replace := true } else s.req o
         let s1 : Acc := { s with scheds := setUsed s.scheds k .main,
                                  main := (x, k) :: s.main.filter (fun m => m.1 != x),
                                  req := upd (upd s.req o reqO) k {},
-                                 stale := if waiting then upd s.stale o true else s.stale }
+                                 stale := if waiting then upd s.stale o false else s.stale }
         match s1.sched? o with
         | some ro => some (discard s1 ro)
         | none => none
